@@ -1264,6 +1264,9 @@ def optimize_grid(data, model_func, pts, grid,
                                    finish=False)
     if full_output:
         xopt, fopt, grid, fout = outputs
+        if grid.ndim == 1:
+            # brute() squeezes the grid when there is a single parameter
+            grid = grid[numpy.newaxis]
         # Thetas are stored as a dictionary, because we can't guarantee
         # iteration order in brute(). So we have to iterate back over them
         # to produce the proper order to return.
